@@ -19,3 +19,4 @@ pub mod wl;
 
 pub use drive::{DeclDesc, IfaceDesc, NewDev, ProcSpec, RunOut, RunSpec, WriterKind};
 pub use ev::{Arg, Ev, Fail, RetTy, Ty};
+pub use microscpi;
